@@ -522,11 +522,17 @@ func (ex *Exec) interpret(fn *ssa.Function, args []Value) Value {
 	}
 	var prev *ssa.BasicBlock
 	b := fn.Blocks[0]
+	symJump := false
 	for {
-		fr.visits[b]++
-		if fr.visits[b] > ex.Ob.unwind() {
-			ex.end(EndUnwind, "loop bound %d exceeded in %s block %d", ex.Ob.unwind(), fn, b.Index)
+		// the unwinding bound applies to loops steered by symbolic conditions; loops
+		// with concrete conditions are bounded by the step budget
+		if symJump {
+			fr.visits[b]++
+			if fr.visits[b] > ex.Ob.unwind() {
+				ex.end(EndUnwind, "loop bound %d exceeded in %s block %d", ex.Ob.unwind(), fn, b.Index)
+			}
 		}
+		symJump = false
 		var next *ssa.BasicBlock
 		for _, in := range b.Instrs {
 			ex.steps++
@@ -546,6 +552,7 @@ func (ex *Exec) interpret(fn *ssa.Function, args []Value) Value {
 				}
 			case *ssa.If:
 				c := term(ex.get(fr, x.Cond))
+				symJump = !c.IsConst()
 				if ex.branch(c) {
 					next = b.Succs[0]
 				} else {
